@@ -8,23 +8,23 @@ theorem length_ne_zero_of_ne_nil {xs : List Nat} (h : xs ≠ []) : xs.length ≠
   cases xs <;> simp_all
 
 theorem addAllToEmpty_ofList (ys : List Nat) (m : Mem) (hy : ys ≠ []) :
-    addAllToEmpty (ofList []) (ofList ys) m =
-      if (m.allocChain ys.length 0).1 then (.ok, ofList ys, (m.allocChain ys.length 0).2)
-      else (.errAlloc, ofList [], (m.allocChain ys.length 0).2) := by
+    addAllToEmpty (ofList t []) (ofList t2 ys) m =
+      if (m.allocChain t ys.length 0).1 then (.ok, ofList t ys, (m.allocChain t ys.length 0).2)
+      else (.errAlloc, ofList t [], (m.allocChain t ys.length 0).2) := by
   have hyl := length_ne_zero_of_ne_nil hy
   unfold addAllToEmpty
   rw [linkAllExternally_ofList, ofList_size, if_neg hyl]
-  by_cases h : (m.allocChain ys.length 0).1 = true
+  by_cases h : (m.allocChain t ys.length 0).1 = true
   · simp [h, ofList, hyl]
   · simp [h]
 
 /-- the three linking branches of the bulk insertions, spelled out -/
 theorem insMany_fix (xs ys : List Nat) (p : Nat) (hx : xs ≠ []) (hy : ys ≠ []) (hp : p ≤ xs.length)
     (hd tl : Ptr) (k : Nat) (hk : k = ys.length)
-    (hhd : hd = if p = 0 then some 0 else ((ofList xs).insMany p ys).head)
-    (htl : tl = if p = xs.length then some (p + ys.length - 1) else ((ofList xs).insMany p ys).tail) :
-    ({ nodes := ((ofList xs).insMany p ys).nodes, head := hd, tail := tl,
-       size := ((ofList xs).insMany p ys).size + k } : Chain) = ofList (xs.take p ++ ys ++ xs.drop p) := by
+    (hhd : hd = if p = 0 then some 0 else ((ofList t xs).insMany p ys).head)
+    (htl : tl = if p = xs.length then some (p + ys.length - 1) else ((ofList t xs).insMany p ys).tail) :
+    ({ triple := t, nodes := ((ofList t xs).insMany p ys).nodes, head := hd, tail := tl,
+       size := ((ofList t xs).insMany p ys).size + k } : Chain) = ofList t (xs.take p ++ ys ++ xs.drop p) := by
   have hxl := length_ne_zero_of_ne_nil hx
   have hyl := length_ne_zero_of_ne_nil hy
   subst hk hhd htl
@@ -33,9 +33,9 @@ theorem insMany_fix (xs ys : List Nat) (p : Nat) (hx : xs ≠ []) (hy : ys ≠ [
   ptr_arith
 
 theorem addAllAt_ofList_in (xs ys : List Nat) (i : Nat) (m : Mem) (hy : ys ≠ []) (hi : i ≤ xs.length) :
-    addAllAt (ofList xs) (ofList ys) i m =
-      if (m.allocChain ys.length 0).1 then (.ok, ofList (xs.take i ++ ys ++ xs.drop i), (m.allocChain ys.length 0).2)
-      else (.errAlloc, ofList xs, (m.allocChain ys.length 0).2) := by
+    addAllAt (ofList t xs) (ofList t2 ys) i m =
+      if (m.allocChain t ys.length 0).1 then (.ok, ofList t (xs.take i ++ ys ++ xs.drop i), (m.allocChain t ys.length 0).2)
+      else (.errAlloc, ofList t xs, (m.allocChain t ys.length 0).2) := by
   have hyl := length_ne_zero_of_ne_nil hy
   unfold addAllAt
   rw [ofList_size, if_neg hyl, ofList_size, if_neg (by omega)]
@@ -47,11 +47,12 @@ theorem addAllAt_ofList_in (xs ys : List Nat) (i : Nat) (m : Mem) (hy : ys ≠ [
     simp
   have hxl := length_ne_zero_of_ne_nil hx
   rw [if_neg hxl, linkAllExternally_ofList]
-  by_cases ha : (m.allocChain ys.length 0).1 = true
+  simp only [ofList_triple]
+  by_cases ha : (m.allocChain t ys.length 0).1 = true
   case neg => simp [ha]
   simp only [ha, Bool.not_true, Bool.false_eq_true, if_false, if_true, getNodeAt_ofList]
-  have hhp : (ofList xs).head = some 0 := by simp [ofList, hxl]
-  have htp : (ofList xs).tail = some (xs.length - 1) := by simp [ofList, hxl]
+  have hhp : (ofList t xs).head = some 0 := by simp [ofList, hxl]
+  have htp : (ofList t xs).tail = some (xs.length - 1) := by simp [ofList, hxl]
   have hpos : ∀ j, Ptr.pos (some j) = j := fun _ => rfl
   simp only [hhp, htp, hpos]
   by_cases he : i < xs.length
@@ -91,11 +92,11 @@ theorem addAllAt_ofList_in (xs ys : List Nat) (i : Nat) (m : Mem) (hy : ys ≠ [
 
 /-- `cc_list_add_all_at` against the ideal list -/
 theorem addAllAt_ofList (xs ys : List Nat) (i : Nat) (m : Mem) :
-    addAllAt (ofList xs) (ofList ys) i m =
+    addAllAt (ofList t xs) (ofList t2 ys) i m =
       if (LSeq.addAllAt true xs ys i).1 = .ok ∧ ys ≠ [] then
-        (if (m.allocChain ys.length 0).1 then (.ok, ofList (LSeq.addAllAt true xs ys i).2.1, (m.allocChain ys.length 0).2)
-         else (.errAlloc, ofList xs, (m.allocChain ys.length 0).2))
-      else ((LSeq.addAllAt true xs ys i).1, ofList xs, m) := by
+        (if (m.allocChain t ys.length 0).1 then (.ok, ofList t (LSeq.addAllAt true xs ys i).2.1, (m.allocChain t ys.length 0).2)
+         else (.errAlloc, ofList t xs, (m.allocChain t ys.length 0).2))
+      else ((LSeq.addAllAt true xs ys i).1, ofList t xs, m) := by
   by_cases hy : ys = []
   · subst hy; simp [addAllAt, LSeq.addAllAt]
   by_cases hi : i ≤ xs.length
@@ -106,10 +107,10 @@ theorem addAllAt_ofList (xs ys : List Nat) (i : Nat) (m : Mem) :
 
 /-- `cc_list_add_all` against the ideal list -/
 theorem addAll_ofList (xs ys : List Nat) (m : Mem) :
-    addAll (ofList xs) (ofList ys) m =
-      if ys = [] then (.ok, ofList xs, m)
-      else if (m.allocChain ys.length 0).1 then (.ok, ofList (LSeq.addAll xs ys).2.1, (m.allocChain ys.length 0).2)
-      else (.errAlloc, ofList xs, (m.allocChain ys.length 0).2) := by
+    addAll (ofList t xs) (ofList t2 ys) m =
+      if ys = [] then (.ok, ofList t xs, m)
+      else if (m.allocChain t ys.length 0).1 then (.ok, ofList t (LSeq.addAll xs ys).2.1, (m.allocChain t ys.length 0).2)
+      else (.errAlloc, ofList t xs, (m.allocChain t ys.length 0).2) := by
   unfold addAll
   by_cases hy : ys = []
   · subst hy
@@ -124,7 +125,7 @@ theorem addAll_ofList (xs ys : List Nat) (m : Mem) :
     simp [hy, LSeq.addAll]
 
 theorem spliceAt_ofList_in (xs ys : List Nat) (i : Nat) (m : Mem) (hy : ys ≠ []) (hi : i ≤ xs.length) :
-    spliceAt (ofList xs) (ofList ys) i m = (.ok, ofList (xs.take i ++ ys ++ xs.drop i), ofList [], m) := by
+    spliceAt (ofList t xs) (ofList t2 ys) i m = (.ok, ofList t (xs.take i ++ ys ++ xs.drop i), ofList t2 [], m) := by
   have hyl := length_ne_zero_of_ne_nil hy
   unfold spliceAt
   rw [ofList_size, if_neg hyl, ofList_size, if_neg (by omega)]
@@ -136,10 +137,10 @@ theorem spliceAt_ofList_in (xs ys : List Nat) (i : Nat) (m : Mem) (hy : ys ≠ [
     simp [ofList, hyl]
   have hxl := length_ne_zero_of_ne_nil hx
   rw [if_neg hxl]
-  have hhp : (ofList xs).head = some 0 := by simp [ofList, hxl]
-  have htp : (ofList xs).tail = some (xs.length - 1) := by simp [ofList, hxl]
-  have hh2 : (ofList ys).head = some 0 := by simp [ofList, hyl]
-  have ht2 : (ofList ys).tail = some (ys.length - 1) := by simp [ofList, hyl]
+  have hhp : (ofList t xs).head = some 0 := by simp [ofList, hxl]
+  have htp : (ofList t xs).tail = some (xs.length - 1) := by simp [ofList, hxl]
+  have hh2 : (ofList t2 ys).head = some 0 := by simp [ofList, hyl]
+  have ht2 : (ofList t2 ys).tail = some (ys.length - 1) := by simp [ofList, hyl]
   have hpos : ∀ j, Ptr.pos (some j) = j := fun _ => rfl
   have hv2 : ys.length - 1 < ys.length := by omega
   have hv1 : xs.length - 1 < xs.length := by omega
@@ -180,8 +181,8 @@ theorem spliceAt_ofList_in (xs ys : List Nat) (i : Nat) (m : Mem) (hy : ys ≠ [
 
 /-- `cc_list_splice_at` against the ideal list -/
 theorem spliceAt_ofList (xs ys : List Nat) (i : Nat) (m : Mem) :
-    spliceAt (ofList xs) (ofList ys) i m =
-      ((LSeq.spliceAt true xs ys i).1, ofList (LSeq.spliceAt true xs ys i).2.1, ofList (LSeq.spliceAt true xs ys i).2.2, m) := by
+    spliceAt (ofList t xs) (ofList t2 ys) i m =
+      ((LSeq.spliceAt true xs ys i).1, ofList t (LSeq.spliceAt true xs ys i).2.1, ofList t2 (LSeq.spliceAt true xs ys i).2.2, m) := by
   by_cases hy : ys = []
   · subst hy; simp [spliceAt, LSeq.spliceAt]
   by_cases hi : i ≤ xs.length
@@ -192,8 +193,8 @@ theorem spliceAt_ofList (xs ys : List Nat) (i : Nat) (m : Mem) :
 
 /-- `cc_list_splice` against the ideal list -/
 theorem splice_ofList (xs ys : List Nat) (m : Mem) :
-    splice (ofList xs) (ofList ys) m =
-      (.ok, ofList (LSeq.splice xs ys).2.1, ofList (if ys = [] then ys else (LSeq.splice xs ys).2.2), m) := by
+    splice (ofList t xs) (ofList t2 ys) m =
+      (.ok, ofList t (LSeq.splice xs ys).2.1, ofList t2 (if ys = [] then ys else (LSeq.splice xs ys).2.2), m) := by
   unfold splice
   rw [spliceAt_ofList]
   by_cases hy : ys = []
